@@ -87,10 +87,10 @@ func composeL1(sum []byte, d int, mod []uint64) string {
 type fakeHash struct{ sum []byte }
 
 func (f *fakeHash) Write(p []byte) (int, error) { return len(p), nil }
-func (f *fakeHash) Sum(b []byte) []byte        { return append(b, f.sum...) }
-func (f *fakeHash) Reset()                     {}
-func (f *fakeHash) Size() int                  { return len(f.sum) }
-func (f *fakeHash) BlockSize() int             { return 64 }
+func (f *fakeHash) Sum(b []byte) []byte         { return append(b, f.sum...) }
+func (f *fakeHash) Reset()                      {}
+func (f *fakeHash) Size() int                   { return len(f.sum) }
+func (f *fakeHash) BlockSize() int              { return 64 }
 
 var _ hash.Hash = (*fakeHash)(nil)
 
